@@ -491,17 +491,50 @@ func c31Generate(r *verifh.Run) []string {
 	add("notify 1 1 0 9")
 	add("frobnicate")
 
+	// consecutive heights from genesis (height 0), constant window, more than two full windows,
+	// a restart at every point (and a double restart at the end)
+	for _, w := range []int{1, 2, 3, 5} {
+		add("new %d", w)
+		for h := 0; h <= 2*w+1; h++ {
+			tx := "-"
+			if h < c31NTxs {
+				tx = strconv.Itoa(h)
+			}
+			add("notify %d %d 0 %s", h, 10*h, tx)
+			add("restart %d", w)
+		}
+		add("restart %d", w)
+		// the same without intermediate restarts
+		add("new %d", w)
+		for h := 0; h <= 2*w+1; h++ {
+			tx := "-"
+			if h < c31NTxs {
+				tx = strconv.Itoa(h)
+			}
+			add("notify %d %d 0 %s", h, 10*h, tx)
+		}
+		add("restart %d", w)
+		add("restart %d", w)
+	}
+
 	windows := []uint64{1, 2, 3, 5}
-	nseq := r.N(70, 1500)
+	nseq := r.N(60, 1500)
 	for i := 0; i < nseq; i++ {
 		w := windows[r.RNG.Intn(len(windows))]
 		add("new %d", w)
 		clean := r.RNG.Chance(40) // consecutive heights, same-window restarts: the partial theorems' histories
 		wild := !clean && r.RNG.Chance(25)
 		h := uint64(r.RNG.Intn(4))
+		if r.RNG.Chance(50) {
+			h = 0 // genesis is delivered first
+		}
+		first := true
 		nextTx := 0
 		var hist []string // notifications so far (for re-delivery)
 		n := 5 + r.RNG.Intn(14)
+		if clean && n < 2*int(w)+5 {
+			n = 2*int(w) + 5 // more than two full windows
+		}
 		for j := 0; j < n; j++ {
 			p := r.RNG.Intn(100)
 			mk := func(h uint64) string {
@@ -529,8 +562,11 @@ func c31Generate(r *verifh.Run) []string {
 				return fmt.Sprintf("notify %d %d 0 %s", h, 10*h, txs)
 			}
 			switch {
-			case p < 62 || (clean && p < 80):
-				h++
+			case p < 62 || (clean && p < 80) || first:
+				if !first {
+					h++
+				}
+				first = false
 				l := mk(h)
 				hist = append(hist, l)
 				lines = append(lines, l)
